@@ -289,6 +289,10 @@ func genC39(seed uint64) *Plan {
 			ctl.Ops = append(ctl.Ops, Op{Kind: "purge", S: t.name})
 		case x < 7 && mode == 0:
 			ctl.Ops = append(ctl.Ops, Op{Kind: "add_topic", S: t.name})
+		case x < 7 && mode == 2:
+			// add then remove while the offset load may still be in flight
+			pp := g.rng(0, max64(nparts, 1)-1)
+			ctl.Ops = append(ctl.Ops, Op{Kind: "add_part", S: t.name, B: pp}, Op{Kind: "sleep", A: g.pick(0, 1, 5, 50, 300)}, Op{Kind: "remove_part", S: t.name, B: pp})
 		case x < 8 && mode == 2:
 			ctl.Ops = append(ctl.Ops, Op{Kind: "add_part", S: t.name, B: g.rng(0, max64(nparts, 1)-1)})
 		case x < 10 && mode == 2:
@@ -305,6 +309,16 @@ func genC39(seed uint64) *Plan {
 		faultsN = 0
 	}
 	g.consumeFaults(faultsN, consumers, nb, horizon)
+	if mode == 2 || g.pct(30) {
+		// trouble while start offsets are being loaded
+		for i := 0; i < int(g.rng(1, 4)); i++ {
+			f := Fault{Client: "c0", Broker: -1, Key: 2, Nth: int(g.rng(1, 6))}
+			f.Kind = g.pickS("err_noproc", "err_noproc", "delay_resp", "kill_resp", "delay")
+			f.Code = int16(g.pick(ErrLeaderNotAvailable, ErrNotLeader, ErrUnknownTopicOrPartition))
+			f.DurMs = g.rng(200, 4000)
+			g.fault(f)
+		}
+	}
 	g.moves(int(g.rng(0, 2)), ntopics, nparts, horizon)
 	k["fault_phase_ms"] = horizon + 8000
 	return g.P
